@@ -160,6 +160,8 @@ impl SessionShardInterface {
         let shard_bytes_uploaded = Arc::new(AtomicUsize::new(0));
 
         for si in shard_list {
+            #[cfg(xet_verif)]
+            utils::verif_hooks::point("session.shard_upload.next");
             let salt = self.config.shard_config.repo_salt;
             let shard_client = self.client.clone();
             let shard_prefix = self.config.shard_config.prefix.clone();
